@@ -71,8 +71,8 @@ def insertStr (x : String) : List String → List String
   | [] => [x]
   | y :: ys => if x < y then x :: y :: ys else if x = y then y :: ys else y :: insertStr x ys
 
-def showSpec (l : List Route) : String :=
-  match (l.map fun r => showResult r.result).foldr insertStr [] with
+def showSpec (l : List (Option Route)) : String :=
+  match (l.map fun r => match r with | some r => showResult r.result | none => "none").foldr insertStr [] with
   | [] => "none"
   | xs => ";".intercalate xs
 
